@@ -250,8 +250,9 @@ def space(tier):
     core = [o.name for o in OPS if o.core]
     broad = [o.name for o in OPS]
     if tier == "quick":
-        return [("broad-1var-len3", broad, 1, 3, SCOPES), ("core-2var-len3", core, 2, 3, SCOPES),
-                ("core-1var-len4", core, 1, 4, ["module", "procedure"])]
+        # sized for < 60 s: one program costs 0.15-0.25 s of CPU (17-line prelude with a class, dev profile)
+        return [("broad-1var-len3", broad, 1, 3, ["module", "outer-variable"]), ("broad-1var-len2", broad, 1, 2, SCOPES),
+                ("core-2var-len3", core, 2, 3, SCOPES), ("core-1var-len4", core, 1, 4, ["procedure"])]
     return [("broad-1var-len4", broad, 1, 4, SCOPES), ("core-2var-len4", core, 2, 4, SCOPES),
             ("broad-2var-len3", broad, 2, 3, SCOPES), ("core-2var-len5", core, 2, 5, ["module"])]
 
